@@ -15,6 +15,7 @@ namespace vf {
 std::vector<Case> &registry() { static std::vector<Case> r; return r; }
 volatile long g_alloc_count = 0;
 volatile int g_alloc_armed = 0;
+volatile long g_thunk_alloc_events = 0;
 }
 using namespace vf;
 
